@@ -34,7 +34,7 @@ ASSUMPTIONS = ['expressions are side-effect free; the fault model is seam-level:
                'tracepoint location and keeps nothing',
                'a program that leaves less than one frame below the recursion limit fails under any Python-level trace function; from one frame up it is compared (program near_limit)']
 
-KINDS = ['snapshot', 'watches', 'snap_log', 'log_only', 'metric', 'span', 'capture', 'cond_true', 'cond_false', 'cond_fail', 'cond_base',
+KINDS = ['snapshot', 'watches', 'snap_log', 'log_only', 'metric', 'span', 'capture', 'cond_true', 'cond_false', 'cond_fail', 'cond_base', 'cond_again',
          'bad_counts', 'nameless_method_span', 'pair_snap_span', 'pair_log_metric']
 FAULT_EXCS = ['exc', 'base']
 
@@ -128,7 +128,7 @@ def observe(lo, run, extra):
         e2 = e2.__cause__ or e2.__context__
         hops += 1
     return {'result': norm(run.result), 'exc': ((type(exc).__name__, norm(exc.args)), tuple(chain)) if exc is not None else None,
-            'out': norm(list(lo.out)), 'data': norm(lo.ns.get('DATA')), 'tb_in_agent': tb_in_agent, 'extra': extra,
+            'out': norm(list(lo.out)), 'data': norm(lo.ns.get('DATA')), 'tb_in_agent': tb_in_agent, 'extra': extra, 'kept-exception': kept_state(lo),
             'process': process_state()}
 
 
@@ -192,6 +192,39 @@ def inject(lo):
     def kb():
         raise HostileInterrupt('from expression')
     lo.ns['kb'] = kb
+    # an exception object the application owns (the error kept by a finished Future, a cached failure): expressions that ask for the
+    # result raise *that object* again
+    try:
+        _origin_of_kept()
+    except ValueError as e:
+        kept = e
+    lo.ns['KEPT'] = kept
+
+    def again():
+        # (python makes the exception being handled where the expression runs the __context__ of what is raised there: that is the
+        # expression's doing, as it is when the application calls this function in an except block. Put back, so that what remains is the agent's.)
+        context = kept.__context__
+        try:
+            raise kept
+        finally:
+            kept.__context__ = context
+    lo.ns['again'] = again
+
+
+def _origin_of_kept():
+    raise ValueError('kept by the application')
+
+
+def kept_state(lo):
+    """What the application sees when it prints the exception it keeps: is the place it came from still there, are there frames of the agent."""
+    kept = lo.ns.get('KEPT')
+    names, files = [], []
+    tb = kept.__traceback__ if kept is not None else None
+    while tb is not None:
+        names.append(tb.tb_frame.f_code.co_name)
+        files.append(tb.tb_frame.f_code.co_filename)
+        tb = tb.tb_next
+    return {'origin-shown': '_origin_of_kept' in names, 'agent-frames': sorted({f.split('/src/deep/')[1] for f in files if '/src/deep/' in f})}
 
 
 # ------------------------------------------------------------------------------------ configurations
@@ -209,14 +242,14 @@ def triggers_for(kind, prog, loc):
     if kind == 'snapshot':
         return [bt('t', {'frame_type': 'all_frame'})]
     if kind == 'watches':
-        return [bt('t', {}, ['DATA', '1/0', 'kb()', 'undefined_zz', 'locals()'])]
+        return [bt('t', {}, ['DATA', '1/0', 'kb()', 'undefined_zz', 'locals()', 'again()'])]
     if kind == 'snap_log':
         return [bt('t', {'log_msg': 'at {kb()} {1/0} {DATA} {{literal}}'})]
     if kind == 'log_only':
-        return [bt('t', {'log_msg': 'only {kb()} {DATA}', 'snapshot': 'no_collect'})]
+        return [bt('t', {'log_msg': 'only {kb()} {DATA} {again()}', 'snapshot': 'no_collect'})]
     if kind == 'metric':
         return [bt('t', {'snapshot': 'no_collect'}, [], [MetricDefinition('m', 'counter', [LabelExpression('l', expression='kb()'), LabelExpression('s', 'static')], 'kb()'),
-                                                         MetricDefinition('g', 'gauge', [], 'len(DATA)')])]
+                                                         MetricDefinition('g', 'gauge', [LabelExpression('a', expression='again()')], 'len(DATA)')])]
     if kind == 'span':
         return [bt('t', {'span': 'method' if loc[0] == 'fn' else 'line', 'snapshot': 'no_collect'})]
     if kind == 'capture':
@@ -224,7 +257,7 @@ def triggers_for(kind, prog, loc):
         location = FunctionLocation(path, loc[1], Location.Position.CAPTURE) if loc[0] == 'fn' else LineLocation(path, line, Location.Position.CAPTURE)
         return [Trigger(location, [LocationAction('t', None, cfg, LocationAction.ActionType.Snapshot)])]
     if kind.startswith('cond_'):
-        cond = {'cond_true': 'True', 'cond_false': 'False', 'cond_fail': '1/0', 'cond_base': 'kb()'}[kind]
+        cond = {'cond_true': 'True', 'cond_false': 'False', 'cond_fail': '1/0', 'cond_base': 'kb()', 'cond_again': 'again() == 1'}[kind]
         return [bt('t', {'condition': cond, 'log_msg': 'c', 'span': 'line'})]
     if kind == 'bad_counts':
         return [bt('t', {'fire_count': 'x', 'fire_period': 'bad', 'frame_type': 'bogus', 'stack_type': 'bogus'})]
@@ -404,6 +437,10 @@ def compare(ctx, base, obs, label, case, feat):
         diff = sorted(k for k in base['process'] if base['process'][k] != obs['process'].get(k))
         ctx.violation(f'C01/process-state-changed/{"+".join(diff)}', f'{label}: after the run the process-wide settings {diff} differ from the run without '
                       f'the agent: {[(base["process"][k], obs["process"][k]) for k in diff][:2]}', case)
+        return False
+    if base.get('kept-exception') != obs.get('kept-exception'):
+        ctx.violation(f'C01/application-exception-object-changed/{feat}', f'{label}: an exception object the application keeps, raised again by an expression of the '
+                      f'tracepoint (what future.result() does): its traceback afterwards {obs.get("kept-exception")}, without the agent {base.get("kept-exception")}', case)
         return False
     if not obs['trace_after']:
         ctx.violation(f'C01/tracing-switched-off/{feat}', f'{label}: after the program sys.gettrace() is no longer the agent\'s function', case)
